@@ -1009,3 +1009,19 @@ Theorem C02_max_radius_contains_radius_1 : forall g : its, wf g ->
   forall n, In n (node_ids (extract_k g 1)) -> In n (node_ids (extract_k_z g (-1))).
 Proof. exact max_radius_contains_radius_1. Qed.
 Print Assumptions C02_max_radius_contains_radius_1.
+
+(** 55. Theorem 10 and theorem 54 for every label shape: what disconnected = True adds to the centre of a pair-/absent-label graph;
+        the maximum-radius context of such a graph contains its extension path (through the skeleton). *)
+Theorem C02_rcS_disconnected : forall K m (g : sits), wf g ->
+  (forall n, In n (node_ids (get_rc_S K true m g)) <->
+             In n (node_ids (get_rc_S K false m g)) \/ (exists a, label g n = Some a /\ cc_S a = true)) /\
+  (forall u v e, (exists y, adj (get_rc_S K true m g) u v = Some y /\ fst y = e) <->
+                 (exists x, adj g u v = Some x /\ fst x = e) /\
+                 In u (node_ids (get_rc_S K true m g)) /\ In v (node_ids (get_rc_S K true m g))).
+Proof. exact rcS_disconnected. Qed.
+Print Assumptions C02_rcS_disconnected.
+
+Theorem C02_lre_path_in_context_S : forall g : sits, wf g ->
+  forall x, In x (lre (skel g) (node_ids (get_rc_S K_default false false g))) -> In x (node_ids (extract_k_S_z g (-1))).
+Proof. exact lre_path_in_context_S. Qed.
+Print Assumptions C02_lre_path_in_context_S.
